@@ -57,7 +57,27 @@ def match_D9(v, trace):
     return isinstance(d, list) and len(d) >= 6 and d[4] == d[5] and d[4] > 0 and d[2] == d[3] and d[2] < 0
 
 
+def match_D1(v, trace):
+    """price replacement validated with the old price / skipped twice in the market figure"""
+    if v["prop"] != "C01":
+        return False
+    d = v["detail"]
+    if v["name"] == "SentOnlyIfWithin":
+        return isinstance(d, list) and d and d[0] == "REPLACE"
+    if v["name"] == "LossBounded":
+        # the position of that strategy / selection contains an order created by a replace whose
+        # re-pricing was accepted earlier in the trace
+        strat, mid, sk = d[0], d[1], d[2]
+        for i, s in enumerate(trace["steps"][: v["step"]]):
+            for q in s.get("reqs", []):
+                if q.get("kind") == "REPLACE" and q.get("r") == "ACCEPT" and q.get("strat") == strat and q.get("mid") == mid:
+                    return True
+        return False
+    return False
+
+
 MATCHERS = {
+    "D1": match_D1,
     "D16": match_D16,
     "D9": match_D9,
 }
